@@ -123,16 +123,20 @@ def step (st : State) (line : String) : State × String :=
     match (kv ws "workers").bind (·.toNat?), kv ws "ls" with
     | some w, some ls =>
       let ks := ls.splitOn ","
-      if 1 ≤ w ∧ w ≤ 4 ∧ 1 ≤ ks.length ∧ ks.length ≤ 4 ∧ ks.all (fun k => k == "tb" || k == "tl" || k == "ub" || k == "ul") then
+      if 1 ≤ w ∧ w ≤ 4 ∧ 1 ≤ ks.length ∧ ks.length ≤ 4 ∧ ks.all (fun k => k == "tb" || k == "tl" || k == "ub" || k == "ul" || k == "t2") then
         let cfg : Cfg := { limit := 25600, nIdx := w }
-        let kinds := ks.map fun k => if k == "ub" || k == "ul" then Kind.uds else Kind.tcp
-        let n := ks.length
+        -- `t2` = one `bind` call with two addresses: two sockets (tokens)
+        let kinds := ks.flatMap fun k => if k == "ub" || k == "ul" then [Kind.uds] else if k == "t2" then [Kind.tcp, Kind.tcp] else [Kind.tcp]
+        let n := kinds.length
         -- an iteration gets the events epoll would report in that state (`readyListeners`) and the waker
         let it (s : St) : St := ActixNet.Srv.run cfg s [Op.poll ((readyListeners s).map Ev.listener ++ [.waker]) []]
         let conns : List Op := (List.range n).map fun l => Op.env (.connect l)
         let s1 := it (ActixNet.Srv.run cfg (ActixNet.Srv.init cfg kinds) conns)
+        -- in the paused phase every TCP socket also gets a client that resets at once: one more accepted connection
+        let pconns : List Op := (List.range n).flatMap fun l =>
+          if kinds.getD l Kind.tcp == Kind.tcp then [Op.env (.connect l), Op.env (.connect l)] else [Op.env (.connect l)]
         let cyc (s : St) : St × Nat × Nat :=
-          let a := it (ActixNet.Srv.run cfg (it (ActixNet.Srv.run cfg s [Op.env (.cmd .pause)])) conns)
+          let a := it (ActixNet.Srv.run cfg (it (ActixNet.Srv.run cfg s [Op.env (.cmd .pause)])) pconns)
           let b := it (it (ActixNet.Srv.run cfg a [Op.env (.cmd .resume)]))
           (b, a.dispatched.length - s.dispatched.length, b.dispatched.length - a.dispatched.length)
         let c1 := cyc s1
